@@ -169,7 +169,38 @@ def discharge(ob, timeout_ms=10000, seed=0, use_cvc5=True, strings=False, on_mod
             return done("unsat", "cvc5")
         if res == "sat":
             return done("sat", "cvc5", model={})
+    # last resort for a goal of the form  forall x. A(x) == B(x)  over Booleans: the two implications separately (their conjunction is the goal)
+    halves = _split_iff(ob.goal)
+    if halves is not None:
+        ok = True
+        for half in halves:
+            s, r, dt = _z3_check(ob.hyps, half, timeout_ms, mbqi=True, seed=seed)
+            total += dt
+            if r != z3.unsat:
+                ok = False
+                reasons.append("split half: %s" % (s.reason_unknown() if r == z3.unknown else "sat"))
+                break
+        if ok:
+            return done("unsat", "z3", split=True)
     return done("unknown", "z3+cvc5" if use_cvc5 else "z3", reason=" | ".join(reasons)[:600])
+
+
+def _split_iff(goal):
+    """forall xs. A == B (Bool)  ->  [forall xs. A => B, forall xs. B => A]; None for any other shape"""
+    try:
+        if not (z3.is_quantifier(goal) and goal.is_forall()):
+            return None
+        body = goal.body()
+        if not (z3.is_eq(body) and z3.is_bool(body.arg(0))):
+            return None
+        n = goal.num_vars()
+        vs = [z3.Const("split_%s_%d" % (goal.var_name(i), i), goal.var_sort(i)) for i in range(n)]
+        inst = z3.substitute_vars(body, *reversed(vs))
+        a, b = inst.arg(0), inst.arg(1)
+        # the bound variables become fresh constants: proving the instance for arbitrary constants proves the universal statement
+        return [z3.Implies(a, b), z3.Implies(b, a)]
+    except Exception:
+        return None
 
 
 def model_to_dict(m):
